@@ -82,6 +82,7 @@ def run(ctx):
     ctx.rule("C11-R4", "non-interference: condition.msd_threshold[k] and condition.gv_weight[k] reach only stream k's trajectory")
     ctx.rule("C11-R5", "no-data marker: the fill value of MlpgAdjust::create and the constant Vocoder::synthesize compares log-F0 with are the same const item; that branch sets the period to 0; period 0 selects noise")
     ctx.rule("C11-R6", "non-MSD streams get a voicing sentinel > 1, above every clamped threshold")
+    ctx.rule("C11-R7", "the voicing weight compared with the threshold is the interpolated one: the blend scales / accumulates msd with the voice weights like the other components (shared with C10-R2)")
     p = cm.program(ctx)
     cg = cm.callgraph(p)
 
@@ -348,6 +349,10 @@ def run(ctx):
             ctx.ok("C11-R5", "Excitation::start stores the given pitch as the current period when starting from / going to 0", st.loc())
         else:
             ctx.fail("C11-R5", st.path, "pitch store", "Excitation::start does not store the pitch", st.loc())
+
+    # ---- R7
+    from .c10 import r2_blend
+    r2_blend(ctx, p, "C11-R7")
 
     # ---- R6
     ms = cm.body_or_fail(ctx, p, "C11-R6", "model::Models::<'a>::stream")
